@@ -76,7 +76,7 @@ def real_eval(payload):
             positive = c["loss"] == "cash_loss"
             data, rms, psf = U.make_images(rng, N, positive=positive)
             # physical flux units: the same scene in units where data, rms, fluxes and sky are ~1e-6
-            unit = 1e-6 if (c["kind"] == "single" and not positive and c["seed"] % 5 == 2) else 1.0
+            unit = 1e-6 if (c["kind"] == "single" and c["loss"] == "gaussian_loss_w_sys" and c["seed"] % 2 == 0) else 1.0
             data, rms = data * unit, rms * unit
             if positive and c["seed"] % 2:
                 # the Cash statistic needs a positive model, not positive data (background-subtracted counts): shift part of the image below 0
@@ -224,8 +224,16 @@ def judge(ctx, c, r, x64):
         rl = sites[lk_name[0]]["logp"].ravel()
         # the fitter stores data and rms in float32 even in 64-bit mode, and numpyro evaluates log(√2π·scale) in the dtype of scale:
         # the likelihood terms carry float32 rounding in both passes
-        l_abs, l_rel = (5e-7, 5e-7) if x64 else (tol_abs, tol_rel)
-        bad = ~(np.abs(rl - terms) <= l_abs + l_rel * np.abs(terms)) & ~(np.isnan(rl) & np.isnan(terms))
+        # (for the losses that add σ_sys = base·mean(rms): the float32 mean enters σ undiluted at pixels whose own rms is 0 — 5e-6)
+        l_abs, l_rel = ((5e-6, 5e-6) if lc["loss"] in c07.SQUARES_RMS else (5e-7, 5e-7)) if x64 else (tol_abs, tol_rel)
+        # float32 cancellation in (data − model)/σ where both are many σ large (scenes in small physical units with a model far from the
+        # data): Δ(z²/2) ≈ |z|·ε₃₂·(|d| + |m|)/σ — allowed for on top, it matters only where that product is large
+        with np.errstate(all="ignore"):
+            dd, mm, rr = (np.asarray(lc[k], float).ravel() for k in ("d", "m", "r"))
+            z = np.abs(dd - mm) / np.where(rr > 0, rr, 1.0)
+            canc = 2.5e-7 * (np.abs(dd) + np.abs(mm)) / np.where(rr > 0, rr, 1.0) * (z + 1.0)
+            canc = np.where(np.isfinite(canc) & (canc > 1e-6), canc, 0.0)
+        bad = ~(np.abs(rl - terms) <= l_abs + l_rel * np.abs(terms) + canc) & ~(np.isnan(rl) & np.isnan(terms))
         if lk_name[0] != sname + sfx:
             diffs.append(f"likelihood site {lk_name[0]} vs model {sname + sfx}")
         elif bad.any():
